@@ -150,8 +150,34 @@ ds_scaled = dataset(body_scaled, callback=double, defaults={"b": ds_plain_dep})
 ds_two_steps = dataset(body_q, callback=__import__("labrea").pipeline.Pipeline() + double + upper)
 ds_scaled_twice = dataset(body_scaled, callback=double, defaults={"b": ds_two_steps})
 
+
+
+# dataset classes: at module level, and defined inside another class body (pickled by reference to their qualified name)
+@__import__("labrea").datasetclass
+class FlatDC:
+    path: str = Option("A", "p")
+    depth: int = Option("S.X", 1)
+
+
+class Settings:
+    @__import__("labrea").datasetclass
+    class Source:
+        path: str = Option("A", "p")
+        depth: int = Option("S.X", 1)
+
+    @__import__("labrea").datasetclass
+    class Sink(Source):
+        target: str = Option("C", "t")
+
+
+def body_dc(flat=FlatDC, src=Settings.Source, sink=Settings.Sink, c=Option("C", 0)):
+    return ("dc", repr(flat), src.path, src.depth, sink.target, sink.path, c)
+
+
+ds_dataset_classes = dataset(body_dc)
+
 DISPATCH_KEY = {"ds_ns": "NS.A"}  # (others dispatch on D)
-GRAPHS = {"ds_scaled": ds_scaled, "ds_two_steps": ds_two_steps, "ds_scaled_twice": ds_scaled_twice, "ds_cyc": ds_cyc, "ds_cyc_twice": ds_cyc_twice, "ds_total": ds_total, "ds_total_sig": ds_total_sig, "ds_quiet": ds_quiet, "ds_late": ds_late, "ds_ns": ds_ns, "ns": NS, "typed": typed, "ds_a": ds_a, "ds_c": ds_c, "ds_main": ds_main, "ds_abstract": ds_abstract, "ds_derived": ds_derived, "expr_root": expr_root}
+GRAPHS = {"ds_dataset_classes": ds_dataset_classes, "dc_nested": Settings.Sink, "ds_scaled": ds_scaled, "ds_two_steps": ds_two_steps, "ds_scaled_twice": ds_scaled_twice, "ds_cyc": ds_cyc, "ds_cyc_twice": ds_cyc_twice, "ds_total": ds_total, "ds_total_sig": ds_total_sig, "ds_quiet": ds_quiet, "ds_late": ds_late, "ds_ns": ds_ns, "ns": NS, "typed": typed, "ds_a": ds_a, "ds_c": ds_c, "ds_main": ds_main, "ds_abstract": ds_abstract, "ds_derived": ds_derived, "expr_root": expr_root}
 
 
 # decorator form (recorded finding: the name of the function now refers to the Dataset)
